@@ -63,6 +63,8 @@ fn rewrite_stmts(ss: &mut Vec<Stmt>, mk: &mut dyn FnMut(usize) -> (Target, Expr)
                 rewrite_stmts(t, mk, defaults, count);
                 rewrite_stmts(f, mk, defaults, count);
             }
+            // input actuals are evaluated before the call writes anything
+            Stmt::Call(..) => {}
         }
         let n = pre.len();
         for (k, p) in pre.into_iter().enumerate() {
